@@ -246,7 +246,7 @@ func vfC27OrderRun(v *vfT, c vfC27OrderCase) {
 		}
 	}
 	gates.OpenAll()
-	if ok, dump := vfWaitActors(actors, 3*time.Second); !ok {
+	if ok, dump := vfWaitActors(actors, 20*time.Second); !ok {
 		v.Violation("C27/order/stuck", "NewEndpoint / dispatch did not return: %s", dump)
 	}
 	vfSettle(gates, actors)
